@@ -4,7 +4,10 @@ package vc
 // function's proof is listed in the evidence as part of the trusted base.
 
 import (
+	"fmt"
 	"go/types"
+	"os"
+	"sort"
 	"strings"
 
 	"golang.org/x/tools/go/ssa"
@@ -196,15 +199,7 @@ var libGlobals = map[string]func(ex *Exec, st *State, t types.Type) Value{}
 // the package initialiser symbolically (once), provided the variable is assigned nowhere else.
 func (ex *Exec) moduleGlobal(st *State, g *ssa.Global, key string) (Value, bool) {
 	pkg := g.Pkg
-	gi := ex.ginit[pkg]
-	if gi == nil {
-		gi = &globalInit{vals: map[*ssa.Global]Value{}}
-		if ex.ginit == nil {
-			ex.ginit = map[*ssa.Package]*globalInit{}
-		}
-		ex.ginit[pkg] = gi
-		ex.runInit(pkg, gi)
-	}
+	gi := ex.ensureInit(pkg)
 	if !ex.globalIsConstant(g) {
 		return nil, false
 	}
@@ -252,10 +247,16 @@ func (ex *Exec) runInit(pkg *ssa.Package, gi *globalInit) {
 	defer func() {
 		ex.cur = saved
 		if r := recover(); r != nil {
-			if _, ok := r.(unsupportedErr); ok {
+			if u, ok := r.(unsupportedErr); ok {
+				if os.Getenv("GOVC_DEBUG_INIT") != "" {
+					fmt.Fprintf(os.Stderr, "init of %s stopped: %s\n", pkg.Pkg.Path(), u.msg)
+				}
 				return
 			}
 			if _, ok := r.(splitRequest); ok {
+				if os.Getenv("GOVC_DEBUG_INIT") != "" {
+					fmt.Fprintf(os.Stderr, "init of %s stopped: case split\n", pkg.Pkg.Path())
+				}
 				return
 			}
 			panic(r)
@@ -355,20 +356,41 @@ func (ex *Exec) globalObjectRaw(g *ssa.Global) *Object {
 	return obj
 }
 
-// RunInits executes the initialisers of all module packages (once, at session start).
+// RunInits executes the initialisers of all module packages (once, at session start), in a fixed order:
+// by package path, every package after the module packages it imports. (The order matters: an initialiser
+// that reads a global of a package whose initialiser has not run yet would start that run in the middle of
+// its own, and the two runs would hand out the same references.)
 func (ex *Exec) RunInits() {
+	var pkgs []*ssa.Package
 	for _, p := range ex.Prog.AllPackages() {
-		if !strings.HasPrefix(p.Pkg.Path(), ex.ModulePath) {
-			continue
+		if strings.HasPrefix(p.Pkg.Path(), ex.ModulePath) {
+			pkgs = append(pkgs, p)
 		}
-		if ex.ginit == nil {
-			ex.ginit = map[*ssa.Package]*globalInit{}
-		}
-		if ex.ginit[p] != nil {
-			continue
-		}
-		gi := &globalInit{vals: map[*ssa.Global]Value{}}
-		ex.ginit[p] = gi
-		ex.runInit(p, gi)
 	}
+	sort.Slice(pkgs, func(i, j int) bool { return pkgs[i].Pkg.Path() < pkgs[j].Pkg.Path() })
+	for _, p := range pkgs {
+		ex.ensureInit(p)
+	}
+}
+
+func (ex *Exec) ensureInit(p *ssa.Package) *globalInit {
+	if ex.ginit == nil {
+		ex.ginit = map[*ssa.Package]*globalInit{}
+	}
+	if gi := ex.ginit[p]; gi != nil {
+		return gi
+	}
+	gi := &globalInit{vals: map[*ssa.Global]Value{}}
+	ex.ginit[p] = gi
+	imps := append([]*types.Package(nil), p.Pkg.Imports()...)
+	sort.Slice(imps, func(i, j int) bool { return imps[i].Path() < imps[j].Path() })
+	for _, imp := range imps {
+		if strings.HasPrefix(imp.Path(), ex.ModulePath) {
+			if ip := ex.Prog.Package(imp); ip != nil {
+				ex.ensureInit(ip)
+			}
+		}
+	}
+	ex.runInit(p, gi)
+	return gi
 }
